@@ -26,7 +26,7 @@ def Act.fracOk : Act → Prop
 theorem tinv_init : TInv {} := ⟨by simp, by simp, by simp⟩
 
 theorem less_whn_le {a b : Item} (h : less a b = true) : a.whn ≤ b.whn := by
-  unfold less at h
+  rw [less_def] at h
   simp only [Bool.or_eq_true, decide_eq_true_eq, Bool.and_eq_true] at h
   rcases h with h | ⟨h, _⟩ <;> omega
 
@@ -423,7 +423,7 @@ theorem due_in_prefix {now : Int} : ∀ {q : List Item}, Sorted q → (∀ x ∈
         · exact Int.le_refl _
         · exact less_whn_le (hs.1 it hit)
       have := hw a (by simp)
-      simp only [isDue, decide_eq_true_eq]; omega
+      simp only [isDue_def, decide_eq_true_eq]; omega
     rw [List.takeWhile_cons_of_pos ha]
     rcases List.mem_cons.mp hit with rfl | hit
     · simp
